@@ -52,12 +52,20 @@ type tcase struct {
 	// itself (so the bus has its own idea of the last offset); the rest were appended
 	// to the store by another writer afterwards.
 	Own int `json:"published_by_this_bus"`
+	// Refused: after the Refused-th event another writer attempts an append with an
+	// already-cancelled context. Whether the store takes it (then it is one more event of the
+	// log) or refuses it, the log afterwards is what one unlimited Read returns, and Replay
+	// from any of its offsets delivers what follows.
+	Refused int `json:"append_with_cancelled_context_after,omitempty"`
 }
 
 func (t tcase) String() string {
 	s := fmt.Sprintf("store=%s batch=%d log=%d start=%d fault=%s@%d", configs[t.Cfg].Name, t.Batch, t.L, t.Start, t.Fault, t.At)
 	if t.Own > 0 {
 		s += fmt.Sprintf(" own=%d", t.Own)
+	}
+	if t.Refused > 0 {
+		s += fmt.Sprintf(" append-with-cancelled-context-after=%d", t.Refused)
 	}
 	return s
 }
@@ -163,14 +171,29 @@ func runCase(t tcase) (result, []string) {
 	eventbus.Subscribe(bus, func(e *eventbus.StoredEvent) { res.Handler++ })
 	eventbus.Subscribe(bus, func(e eventbus.StoredEvent) { res.Handler++ })
 	// the log: the first Own events published by this very bus, the rest by another writer
+	refuse := func(i int) {
+		if i != t.Refused {
+			return
+		}
+		cctx, ccancel := context.WithCancel(bg)
+		ccancel()
+		hd.Store.Append(cctx, &eventbus.Event{Type: "t", Data: json.RawMessage(fmt.Sprintf(`{"i":%d}`, 100+i)), Timestamp: time.Unix(int64(1500+i), 0).UTC()})
+	}
 	for i := 1; i <= t.L; i++ {
 		if i <= t.Own {
 			eventbus.Publish(bus, storedT{I: i})
+			refuse(i)
 			continue
 		}
 		if _, err := hd.Store.Append(bg, &eventbus.Event{Type: "t", Data: json.RawMessage(fmt.Sprintf(`{"i":%d}`, i)), Timestamp: time.Unix(int64(1000+i), 0).UTC()}); err != nil {
 			vrt.MachineryFault("append: %v", err)
 		}
+		refuse(i)
+	}
+	// ids: the log as the store lists it (event numbers in log order)
+	ids := make([]int, 0, t.L+1)
+	for i := 1; i <= t.L; i++ {
+		ids = append(ids, i)
 	}
 	var offs []eventbus.Offset
 	{
@@ -178,8 +201,22 @@ func runCase(t tcase) (result, []string) {
 		if err != nil {
 			vrt.MachineryFault("read back: %v", err)
 		}
+		if t.Refused > 0 {
+			ids = ids[:0]
+		}
 		for _, e := range all {
 			offs = append(offs, e.Offset)
+			if t.Refused > 0 {
+				var d struct{ I int }
+				json.Unmarshal(e.Data, &d)
+				ids = append(ids, d.I)
+			}
+		}
+		if t.Refused > 0 && (len(ids) < t.L || len(ids) > t.L+1) {
+			vrt.MachineryFault("log of %d appends and one append with a cancelled context lists %d events", t.L, len(ids))
+		}
+		if t.Start > len(ids) {
+			return res, nil
 		}
 		if len(offs) < t.L && t.Start > len(offs) {
 			return res, nil // the store cannot even list its log in one read (durable-streams chunking): other cases cover it
@@ -241,10 +278,13 @@ func runCase(t tcase) (result, []string) {
 	}
 	res.Appends = fs.appends
 	// ---- oracle
-	want := t.L - t.Start
+	want := len(ids) - t.Start
 	for i, d := range res.Delivered {
-		if d != t.Start+1+i {
-			bad("delivered sequence %v is not a gap-free in-order prefix of the events after the start offset (expected %d at index %d)", res.Delivered, t.Start+1+i, i)
+		if i >= want {
+			break
+		}
+		if d != ids[t.Start+i] {
+			bad("delivered sequence %v is not a gap-free in-order prefix of the events after the start offset (expected %d at index %d)", res.Delivered, ids[t.Start+i], i)
 			break
 		}
 	}
@@ -302,6 +342,7 @@ func runCase(t tcase) (result, []string) {
 		if _, err := hd.Store.Append(bg, &eventbus.Event{Type: "t", Data: json.RawMessage(fmt.Sprintf(`{"i":%d}`, t.L+1)), Timestamp: time.Unix(int64(2000+t.L), 0).UTC()}); err != nil {
 			vrt.MachineryFault("append: %v", err)
 		}
+		ids = append(ids, t.L+1)
 		var again []int
 		err2 := bus.Replay(bg, from, func(se *eventbus.StoredEvent) error {
 			var d struct{ I int }
@@ -311,7 +352,7 @@ func runCase(t tcase) (result, []string) {
 		})
 		okSeq := len(again) == want+1
 		for i, d := range again {
-			okSeq = okSeq && d == t.Start+1+i
+			okSeq = okSeq && t.Start+i < len(ids) && d == ids[t.Start+i]
 		}
 		if err2 != nil || !okSeq {
 			bad("a second, fault-free Replay on the same bus after the log grew by one event delivered %v (err %v), want the %d events after the start offset in order", again, err2, want+1)
@@ -371,6 +412,54 @@ func cases(thorough bool) []tcase {
 						l = append(l, tcase{Cfg: ci, Batch: b, L: L, Start: s, Fault: "store-fail", At: p})
 						if sqliteCfg {
 							l = append(l, tcase{Cfg: ci, Batch: b, L: L, Start: s, Fault: "row-fail", At: p})
+						}
+					}
+				}
+			}
+		}
+	}
+	// long logs: the offsets of a store change shape as the log grows (SQLite: "9" then "10")
+	for ci, cfg := range configs {
+		bs := []int{0, 3}
+		if !cfg.Paged {
+			bs = []int{0}
+		}
+		for _, b := range bs {
+			for _, L := range []int{11, 13} {
+				for _, s := range []int{0, 5, 8, 9, 10, 11} {
+					if s > L {
+						continue
+					}
+					l = append(l, tcase{Cfg: ci, Batch: b, L: L, Start: s, Fault: "none"})
+					if cfg.Kind == "memory" || cfg.Kind == "sqlite" {
+						l = append(l, tcase{Cfg: ci, Batch: b, L: L, Start: s, Fault: "none", Own: L})
+					}
+					for _, k := range []int{1, 2} {
+						if k <= L-s {
+							l = append(l, tcase{Cfg: ci, Batch: b, L: L, Start: s, Fault: "cb-error", At: k})
+						}
+					}
+				}
+			}
+		}
+	}
+	// an append with an already-cancelled context somewhere in the log (no durable-streams:
+	// its read-back is chunked)
+	for ci, cfg := range configs {
+		if cfg.Kind == "durable" || cfg.Kind == "durable-chunk1" {
+			continue
+		}
+		bs := []int{0, 2}
+		if !cfg.Paged {
+			bs = []int{0}
+		}
+		for _, b := range bs {
+			for L := 1; L <= maxL && L <= 5; L++ {
+				for r := 1; r <= L; r++ {
+					for s := 0; s <= L+1; s++ {
+						l = append(l, tcase{Cfg: ci, Batch: b, L: L, Start: s, Fault: "none", Refused: r})
+						if cfg.Kind == "memory" && b == 0 {
+							l = append(l, tcase{Cfg: ci, Batch: b, L: L, Start: s, Fault: "none", Refused: r, Own: L})
 						}
 					}
 				}
